@@ -18,8 +18,13 @@ namespace bv = booster::verif;
 
 static booster::intrusive_ptr<base_cache> cache;
 static int names=4;
-static std::atomic<long> vcounter(0);
-static std::atomic<long> progress(0);
+#include <sys/mman.h>
+#include <sys/wait.h>
+// counters live in shared memory so that forked processes (mode "proc") share them
+struct shared_counters { std::atomic<long> vcounter, progress; std::atomic<unsigned long long> seq; };
+static shared_counters *sh = new(mmap(0,sizeof(shared_counters),PROT_READ|PROT_WRITE,MAP_SHARED|MAP_ANONYMOUS,-1,0)) shared_counters();
+#define vcounter (sh->vcounter)
+#define progress (sh->progress)
 
 static std::string nm(int i) { char b[32]; snprintf(b,sizeof(b),"n%d",i); return b; }
 static std::string mkval(long id)
@@ -117,6 +122,35 @@ int main(int argc,char **argv)
 	bv::open(out);
 	pthread_t wd; pthread_create(&wd,0,watchdog,0);
 	long seed=vt::envl("VERIF_SEED",1);
+	bool proc = argc>6 && std::string(argv[6])=="proc";
+	if(proc) {
+		bv::st().shared_seq=&sh->seq;
+		cache=process_cache_factory(4*1024*1024,limit);
+		for(int r=0;r<rounds;r++) {
+			vt::fake_now=vt::clock_base;
+			bv::emit("\"e\":\"Reset\",\"limit\":%d,\"threads\":%d,\"backend\":\"process\"",limit,threads);
+			bv::emit("\"e\":\"Inv\",\"op\":\"clear\"");
+			cache->clear();          // one segment per process: the cache object is reused, emptied between rounds
+			bv::emit("\"e\":\"Ret\"");
+			std::vector<pid_t> kids;
+			for(int i=0;i<threads;i++) {
+				pid_t pid=fork();
+				if(pid==0) {
+					bv::st().tid_base=i+1;
+					worker w; w.id=i; w.nops=nops; w.seed=seed*7919+r*131+i*17+limit;
+					w();
+					_exit(0);
+				}
+				kids.push_back(pid);
+			}
+			bool bad=false;
+			for(size_t i=0;i<kids.size();i++) { int st=0; waitpid(kids[i],&st,0); if(!WIFEXITED(st) || WEXITSTATUS(st)!=0) bad=true; }
+			if(bad) { bv::emit("\"e\":\"Died\",\"why\":\"worker process\""); bv::close(); return 0; }
+			bv::emit("\"e\":\"End\"");
+		}
+		bv::close();
+		return 0;
+	}
 	for(int r=0;r<rounds;r++) {
 		cache=thread_cache_factory(limit);
 		vt::fake_now=vt::clock_base;
